@@ -7,6 +7,10 @@ HERE = os.path.dirname(os.path.dirname(os.path.abspath(__file__)))
 
 # id -> (engine, technique, level text, level note, design ref)
 CHECKS = {
+    "C19": ("XH", "CrossHair-driven exhaustive enumeration (z3 choice variables) of all parent declarations over N commands; real argparse-based code executed per graph",
+            "bounded exhaustive exploration with an exhaustion certificate: every acyclic parent declaration over N<=4 (quick) / N<=5 (thorough) commands, every option/command pair checked against the transitive-closure oracle",
+            "structural property: the solver only enumerates; argparse (stdlib) trusted; stderr captured",
+            "DESIGN.md 3/C19"),
     "C08": ("XH", "CrossHair symbolic execution of the real CHText code vs a list-of-(char,color) reference model; z3 per path, spaces exhausted",
             "bounded model checking: per canonical chunk layout, slice bounds are unbounded symbolic ints and the path tree is exhausted (all ints covered); "
             "construction routes / join / format / 2-operation sequences are exhausted over stated small layouts; counterexamples replayed on CPython",
